@@ -147,7 +147,11 @@ def res(synset1: Synset, synset2: Synset, ic: Freq) -> float:
 
     """
     _check_if_pos_compatible(synset1.pos, synset2.pos)
-    lcs = _most_informative_lcs(synset1, synset2, ic)
+    # the maximum information content among the lowest common hypernyms
+    # is that of the one with the smallest weight
+    pos_ic = ic[ADJ if synset1.pos == ADJ_SAT else synset1.pos]
+    lcs = min(_least_common_subsumers(synset1, synset2, False),
+              key=lambda ss: pos_ic[ss.id])
     return information_content(lcs, ic)
 
 
